@@ -5,21 +5,28 @@ import (
 	"context"
 	"encoding/json"
 	"fmt"
+	"io"
 	"os"
 	"runtime"
 	"strconv"
 	"sync"
+
+	"flamingo.me/pugtemplate/pugjs"
 )
 
 // C08: concurrent renders on ONE engine vs the same renders one at a time.
 //
 // One case = one engine with a fixed template set, a list of distinct jobs
-// (template, data) and a list of calls (one goroutine per call, each naming a
-// job).  The harness
-//   1. loads the templates (production mode) and renders every job alone,
+// (template, data, context) and a list of calls (one goroutine per call, each
+// naming a job).  The harness
+//   1. loads the templates (production mode) and renders every job alone, each
+//      with a fresh context built from the job's context description,
 //   2. for every round starts len(calls) goroutines, each builds ITS OWN data
-//      value, all park on a barrier, are released together and call
-//      Engine.Render once,
+//      value and ITS OWN context, all park on a barrier, are released together
+//      and call Engine.Render once; the harness's context-aware template
+//      functions (c08ctx.go) answer from the call's context and stagger the
+//      renders (holds inside function providers, inside the functions, and
+//      between Render returning and the caller reading the result),
 //   3. renders every job alone again (the engine must be as it was).
 // Built with -race the Go race detector watches all of it; the reports go to
 // the file named by PV_RACE_LOG (GORACE log_path) and are attributed to the
@@ -29,6 +36,7 @@ import (
 type c08Job struct {
 	Tpl  string          `json:"tpl"`  // hex template name
 	Data json.RawMessage `json:"data"` // typed data (see buildData)
+	Ctx  c08CtxSpec      `json:"ctx"`  // what the call's context carries (see c08ctx.go)
 }
 
 type c08Case struct {
@@ -38,6 +46,7 @@ type c08Case struct {
 	Rounds    int               `json:"rounds"`
 	Debug     bool              `json:"debug"`
 	RateLimit int               `json:"ratelimit"`
+	Stagger   uint64            `json:"stagger"` // seed of the stagger plans; 0 = no deliberate staggering
 }
 
 type c08Obs struct {
@@ -50,6 +59,7 @@ type c08Obs struct {
 	GoEqual    bool             `json:"go_equal"`
 	RaceBuild  bool             `json:"race_build"`
 	Procs      int              `json:"procs"`
+	Stagger    c08StaggerStats  `json:"stagger"` // what the stagger points did, summed over the rounds
 }
 
 func init() {
@@ -85,6 +95,24 @@ func raceLog() []byte {
 
 func sameResult(a, b renderResult) bool { return a.Class == b.Class && a.Out == b.Out }
 
+// c08Render is one call: Engine.Render with the call's own context, then (after the "read"
+// stagger point: the caller is not obliged to read at once) reading the returned reader.
+func c08Render(e *pugjs.Engine, ctx context.Context, s *c08Script, name string, data interface{}) (res renderResult) {
+	defer s.leave()
+	defer func() {
+		if r := recover(); r != nil {
+			res = renderResult{Class: clsPanic}
+		}
+	}()
+	rd, err := e.Render(ctx, name, data)
+	if err != nil {
+		return renderResult{Class: classifyErr(err)}
+	}
+	s.point("read")
+	b, _ := io.ReadAll(rd)
+	return renderResult{Class: clsOK, Out: hx(string(b))}
+}
+
 func runC08(c c08Case) (obs c08Obs, err error) {
 	dir, err := os.MkdirTemp("", "pv08")
 	if err != nil {
@@ -107,7 +135,7 @@ func runC08(c c08Case) (obs c08Obs, err error) {
 	obs.Procs = runtime.GOMAXPROCS(0)
 	before := len(raceLog())
 
-	e := newEngine(dir, c.Debug, c.RateLimit, nil)
+	e := newEngine(dir, c.Debug, c.RateLimit, c08Funcs())
 	if c.Debug {
 		obs.Load = clsOK // debug mode loads per render
 	} else {
@@ -116,7 +144,6 @@ func runC08(c c08Case) (obs c08Obs, err error) {
 			return obs, nil
 		}
 	}
-	ctx := context.Background()
 	names := make([]string, len(c.Jobs))
 	for j, job := range c.Jobs {
 		names[j] = unhx(job.Tpl)
@@ -128,8 +155,8 @@ func runC08(c c08Case) (obs c08Obs, err error) {
 			if err != nil {
 				return nil, err
 			}
-			res[j] = safeRender(e, ctx, names[j], d)
-			res[j].Err = ""
+			ctx, s := c08Context(job.Ctx, nil, 0) // alone: no meeting, no staggering
+			res[j] = c08Render(e, ctx, s, names[j], d)
 		}
 		return res, nil
 	}
@@ -141,11 +168,19 @@ func runC08(c c08Case) (obs c08Obs, err error) {
 	for r := 0; r < c.Rounds; r++ {
 		res := make([]renderResult, n)
 		datas := make([]interface{}, n)
+		ctxs := make([]context.Context, n)
+		scripts := make([]*c08Script, n)
+		meet := newC08Meet()
 		for g := 0; g < n; g++ {
-			// every call gets its own, freshly built data value
+			// every call gets its own, freshly built data value and its own context
 			if datas[g], err = buildData(c.Jobs[c.Calls[g]].Data); err != nil {
 				return obs, err
 			}
+			var seed uint64
+			if c.Stagger != 0 {
+				seed = c08mix(c.Stagger^c08mix(uint64(r)<<20|uint64(g))) | 1
+			}
+			ctxs[g], scripts[g] = c08Context(c.Jobs[c.Calls[g]].Ctx, meet, seed)
 		}
 		var ready, done sync.WaitGroup
 		start := make(chan struct{})
@@ -156,9 +191,7 @@ func runC08(c c08Case) (obs c08Obs, err error) {
 				defer done.Done()
 				ready.Done()
 				<-start
-				rr := safeRender(e, ctx, names[c.Calls[g]], datas[g])
-				rr.Err = ""
-				res[g] = rr
+				res[g] = c08Render(e, ctxs[g], scripts[g], names[c.Calls[g]], datas[g])
 			}(g)
 		}
 		ready.Wait()
@@ -170,6 +203,13 @@ func runC08(c c08Case) (obs c08Obs, err error) {
 			}
 		}
 		obs.Conc = append(obs.Conc, res)
+		obs.Stagger.Points += meet.st.Points
+		obs.Stagger.Holds += meet.st.Holds
+		obs.Stagger.Released += meet.st.Released
+		obs.Stagger.Timeouts += meet.st.Timeouts
+		if meet.st.MaxInside > obs.Stagger.MaxInside {
+			obs.Stagger.MaxInside = meet.st.MaxInside
+		}
 	}
 	if obs.SeqAfter, err = seqAll(); err != nil {
 		return obs, err
